@@ -46,6 +46,47 @@ def _run_variant(args):
         shutil.rmtree(d, ignore_errors=True)
 
 
+def _run_seed(args):
+    """Apply a stored sub-agent change (seeded/<id>/patch.diff) to a scratch copy and analyse it."""
+    import subprocess
+    prop, src_root, seed, patch = args
+    d = tempfile.mkdtemp(prefix=f'selftest.{prop}.seed.', dir=os.environ.get('VERIF_SCRATCH', '/tmp'))
+    try:
+        _copy_pkg(src_root, d)
+        r = subprocess.run(['git', 'apply', '--include=moPepGen/*', patch], cwd=d, capture_output=True, text=True)
+        if r.returncode:
+            return seed, {'skipped': 'patch does not apply to the current tree'}
+        repo = Repo(d)
+        mod = importlib.import_module(f'rules.{prop}')
+        chk = Check(prop, 'thorough', repo)
+        try:
+            mod.run(chk, repo)
+        except AnalysisError as e:
+            return seed, {'analysis_error': str(e), 'findings': []}
+        return seed, {'findings': [(f.rule, f.key) for f in chk.findings]}
+    except Exception as e:       # pylint: disable=broad-except
+        return seed, {'error': f'{type(e).__name__}: {e}'}
+    finally:
+        shutil.rmtree(d, ignore_errors=True)
+
+
+def seed_jobs(prop: str, repo: Repo):
+    """Stored seeds this property's check is expected to report (seeded/EXPECT.json, committed)."""
+    import json
+    here = os.path.dirname(os.path.dirname(os.path.abspath(__file__)))
+    exp = os.path.join(here, 'seeded', 'EXPECT.json')
+    if not os.path.exists(exp):
+        return []
+    with open(exp, 'rt') as h:
+        expect = json.load(h)
+    out = []
+    for seed, props in sorted(expect.items()):
+        patch = os.path.join(here, 'seeded', seed, 'patch.diff')
+        if prop in props and os.path.exists(patch):
+            out.append((prop, repo.root, seed, patch))
+    return out
+
+
 def generic_ops(repo: Repo, quals: List[str]):
     """benign operators applicable to every property: line shifts and no-op statements in the
     analysed functions."""
@@ -81,8 +122,27 @@ def run_selftest(prop: str, mod, repo: Repo) -> Dict[str, Any]:
     with cf.ProcessPoolExecutor(max_workers=min(16, max(1, len(jobs)))) as ex:
         for name, res in ex.map(_run_variant, [j[1] for j in jobs]):
             results[name] = res
+    sj = seed_jobs(prop, repo)
+    seed_res = {}
+    if sj:
+        with cf.ProcessPoolExecutor(max_workers=min(16, len(sj))) as ex:
+            for seed, res in ex.map(_run_seed, sj):
+                seed_res[seed] = res
     fired = silent = nb = ng = 0
     missed = list(build_errors)
+    seeds_fired = seeds_skipped = 0
+    for seed, r in sorted(seed_res.items()):
+        if 'skipped' in r:
+            seeds_skipped += 1
+            continue
+        if 'error' in r:
+            missed.append(f"seed {seed}: {r['error']}")
+            continue
+        new = [x for x in r.get('findings', []) if tuple(x) not in base_keys]
+        if new:
+            seeds_fired += 1
+        else:
+            missed.append(f"seed {seed}: stored breaking change NOT reported ({r.get('analysis_error', 'no new finding')})")
     samples = []
     for op, _ in jobs:
         r = results[op.name]
@@ -106,4 +166,5 @@ def run_selftest(prop: str, mod, repo: Repo) -> Dict[str, Any]:
             else:
                 missed.append(f"{op.name}: benign variant raised {new[:3]} {r.get('analysis_error', '')} {r.get('floors', '')}")
     return {'breaking_fired': fired, 'breaking_total': nb, 'benign_silent': silent, 'benign_total': ng,
+            'seeds_fired': seeds_fired, 'seeds_total': len(seed_res) - seeds_skipped, 'seeds_skipped': seeds_skipped,
             'missed': missed, 'samples': samples[:60]}
